@@ -363,9 +363,9 @@ def gen_forged(rng, enc, steps=50):
                 ref = history[nxt - 1]
         elif r < 0.36:    # wrong number of connection statuses, with and without disconnect request
             st = rng.choice(["-", "0:-1", ",".join("0:-1" for _ in range(players + 1))])
-            L.append(packet(nxt, [good_input()], st=st, dr=rng.choice([0, 0, 1])))
+            L.append(packet(nxt, [good_input()], st=st, dr=rng.choice([0, 0, 1]), ack=rng.choice([-1, -1, 0, max(0, sent - 1), sent, 500])))
         elif r < 0.41:    # negative start frame
-            L.append(packet(rng.choice([-1, -2, I32_MIN]), [good_input()]))
+            L.append(packet(rng.choice([-1, -2, I32_MIN]), [good_input()], ack=rng.choice([-1, -1, 0, max(0, sent - 1), sent, 500])))
         elif r < 0.46:    # start frame at the top of the i32 range (frame arithmetic overflows)
             L.append(packet(rng.choice([I32_MAX, I32_MAX - 1]), [good_input(), good_input(), good_input()][:rng.choice([1, 2, 3])],
                             base=[0] * (4 * nh)))
@@ -411,7 +411,7 @@ def gen_forged(rng, enc, steps=50):
                                                  rng.choice([0, 1, 10, 500, I32_MAX, -1, rng.randrange(0, 4000)])))
         elif r < 0.89:    # wrong magic: dropped
             L.append(packet(nxt, [good_input()], magic=(peer_magic + rng.randrange(1, 65535)) % 65536))
-        elif r < 0.93:
+        elif r < 0.95:
             L.append("send 0 0:%d:%d %s" % (sent, 5, st_ok))
             sent += 1
         elif r < 0.97:
